@@ -21,6 +21,32 @@ class EventHandler(Protocol):
     __events__: Mapping[str, str]
 
 
+class _HandlerRef(weakref.ref):
+    """Weak reference to a handler, hashed and compared by identity.
+
+    A plain ``weakref.ref`` hashes and compares like its referent while
+    that is alive, which would make two distinct but equal handlers
+    (e.g. value-like components) share one registration, and would
+    reject unhashable ones.
+    """
+    __slots__ = ('_handler_id',)
+
+    def __init__(self, handler, callback=None):
+        super().__init__(handler, callback)
+        self._handler_id = id(handler)
+
+    def __hash__(self):
+        return self._handler_id
+
+    def __eq__(self, other):
+        if self is other:
+            return True
+        if not isinstance(other, _HandlerRef):
+            return NotImplemented
+        handler = self()
+        return handler is not None and handler is other()
+
+
 class EventDispatcher:
     """Stores :class:`EventHandler` instances and dispatches events.
 
@@ -56,7 +82,7 @@ class EventDispatcher:
         assert isinstance(handler, EventHandler)
 
         # Populate _events
-        handler_ref = weakref.ref(handler, self._remove_weak_handler)
+        handler_ref = _HandlerRef(handler, self._remove_weak_handler)
         for event_name, method_name in handler.__events__.items():
             self._events.setdefault(event_name, set()).add(
                 (handler_ref, getattr(handler.__class__, method_name)))
@@ -72,7 +98,7 @@ class EventDispatcher:
         """Return whether or not a handler is into the dispatcher."""
         assert isinstance(handler, EventHandler)
 
-        return weakref.ref(handler) in self._handlers
+        return _HandlerRef(handler) in self._handlers
 
     def _remove_weak_handler(self, handler_ref: weakref.ref[EventHandler]):
         """Remove handler given its weak reference.
@@ -92,7 +118,7 @@ class EventDispatcher:
 
         Said handler will stop receiving all dispatched events.
         """
-        self._remove_weak_handler(weakref.ref(handler))
+        self._remove_weak_handler(_HandlerRef(handler))
 
     def dispatch(self, event_name: str, *args, **kwargs):
         """Broadcast an event to all registered listeners.
